@@ -287,13 +287,7 @@ func Tokenize(source string) ([]Token, error) {
 		} else if matches := regexp.MustCompile(`(?s)^\/\*(.*?)\*\/`).FindStringSubmatch(source[i:]); matches != nil {
 			// Multiline comment.
 			token = newToken(matches[1], COMMENT, ogRow, ogColumn)
-			match := matches[0]
-			lines := strings.Split(match, "\n")
-			lastLinesIndex := len(lines) - 1
-			row += lastLinesIndex
-			ogColumn = startIndex
-			i += len(match)
-			ogI = i - len(lines[lastLinesIndex])
+			i += len(matches[0])
 		} else if matches := regexp.MustCompile(`^\/\/(.*)`).FindStringSubmatch(source[i:]); matches != nil {
 			// Single line comment.
 			token = newToken(matches[1], COMMENT, ogRow, ogColumn)
@@ -348,6 +342,10 @@ func Tokenize(source string) ([]Token, error) {
 		if token.tokenType == NEWLINE {
 			row++
 			column = startIndex
+		} else if consumed := source[ogI:i]; strings.Contains(consumed, "\n") {
+			// Token spans several lines (raw string, block comment).
+			row += strings.Count(consumed, "\n")
+			column = startIndex + len(consumed) - strings.LastIndex(consumed, "\n") - 1
 		} else {
 			column = ogColumn + (i - ogI)
 		}
